@@ -20,5 +20,8 @@ NoError == \A i \in DOMAIN T.errs : T.errs[i] = ""
 Ordered == \A i \in DOMAIN T.yielded : Asc(T.yielded[i])
 Listed == \A i \in DOMAIN T.yielded : \A j \in DOMAIN T.yielded[i] : \E k \in DOMAIN T.listing : T.listing[k] = T.yielded[i][j]
 Fresh == Len(T.stale) = 0
-Accepted == (NoError /\ Ordered /\ Listed /\ Fresh) \/ PrintT(<<"REJECTED", idx, <<NoError, Ordered, Listed, Fresh>>>>)
+\* a PID that an earlier, completed pass cached and that nothing happened to since is served by that
+\* very object to every thread (`foreign`: the PIDs for which a thread was handed another one)
+Same == Len(T.foreign) = 0
+Accepted == (NoError /\ Ordered /\ Listed /\ Fresh /\ Same) \/ PrintT(<<"REJECTED", idx, <<NoError, Ordered, Listed, Fresh, Same>>>>)
 =============================================================================
